@@ -5,6 +5,7 @@ import (
 	"math/rand/v2"
 	"runtime"
 	"sort"
+	"strings"
 	"sync"
 	"time"
 
@@ -84,6 +85,115 @@ func (m c14) Run(ctx *core.Ctx) {
 		ctx.Begin(cs)
 		m.Exec(ctx, cs)
 	}
+	if ctx.Shard%16 == 5 {
+		// long-run state: one soak per sixteen processes on the long-lived shared objects
+		cs := &core.Case{Check: "soak-round", N: int(ctx.Rng.Uint32() >> 1)}
+		ctx.Begin(cs)
+		m.Exec(ctx, cs)
+	}
+}
+
+// c14SoakParser lives as long as the process, like the package-level default parser and the profiles.
+var c14SoakParser = url.NewParser()
+
+// soakRound: tens of thousands of DISTINCT hosts, paths and queries go through the long-lived
+// shared objects (package-level functions, one parser value, one profile) from 16 goroutines,
+// first each name once (filling whatever bounded memo, generation or pool the library keeps and
+// pushing it over its limits: 256, 1 024, 4 096, 10 000 ... entries), then the early names again
+// from all goroutines at once (the eviction / carry-over / refill paths run concurrently).  The
+// race detector watches; a sample of the results is compared with the same call made alone.
+func (c14) soakRound(ctx *core.Ctx, cs *core.Case) {
+	c14TakeBaseline()
+	old := runtime.GOMAXPROCS(16)
+	defer runtime.GOMAXPROCS(old)
+	N := 12_000
+	if ctx.Tier == "thorough" {
+		N = 70_000
+	}
+	const K = 16
+	name := func(i int) string {
+		switch i % 4 {
+		case 0:
+			return fmt.Sprintf("http://h\u00e9%d.example/p%d?q=%d", i, i%97, i)
+		case 1:
+			return fmt.Sprintf("https://www%d.b\u00fccher.example:8443/%d/x", i, i)
+		case 2:
+			return fmt.Sprintf("http://[2001:db8::%x:%x]/a?b=%d", i>>16, i&0xffff, i)
+		default:
+			return fmt.Sprintf("http://Host%d.Example.COM/a/../b%d", i, i)
+		}
+	}
+	call := func(obj, i int) string {
+		in := name(i)
+		switch obj {
+		case 0:
+			return c14result(url.Parse(in))
+		case 1:
+			return c14result(c14SoakParser.Parse(in))
+		case 2:
+			return c14result(canonicalizer.GoogleSafeBrowsing.Parse(in))
+		default:
+			return c14result(url.ParseRef("http://base"+fmt.Sprint(i%5000)+".example/x/y", in[strings.Index(in, "//"):]))
+		}
+	}
+	type sample struct {
+		obj, i int
+		res    string
+	}
+	samples := make([][]sample, K)
+	var wg sync.WaitGroup
+	gate := make(chan struct{})
+	for g := 0; g < K; g++ {
+		wg.Add(1)
+		go func(g int) {
+			defer wg.Done()
+			defer func() {
+				if r := recover(); r != nil {
+					samples[g] = append(samples[g], sample{-1, g, fmt.Sprint("PANIC:", r)})
+				}
+			}()
+			<-gate
+			rg := rand.New(rand.NewPCG(uint64(cs.N), uint64(g)))
+			// phase A: every name once, partitioned over the goroutines
+			for i := g; i < N; i += K {
+				for obj := 0; obj < 4; obj++ {
+					res := call(obj, i)
+					if i%37 == 0 {
+						samples[g] = append(samples[g], sample{obj, i, res})
+					}
+				}
+			}
+			// phase B: the early names again, from everybody at once
+			for k := 0; k < N/4; k++ {
+				i := rg.IntN(N * 5 / 6)
+				obj := rg.IntN(4)
+				res := call(obj, i)
+				if k%23 == 0 {
+					samples[g] = append(samples[g], sample{obj, i, res})
+				}
+			}
+		}(g)
+	}
+	close(gate)
+	wg.Wait()
+	ctx.Nontrivial()
+	ctx.Count("soak_rounds")
+	ctx.Add("soak_distinct_names", int64(N))
+	ctx.Add("concurrent_calls", int64(K*(N/K*4+N/4)))
+	for g := range samples {
+		for _, sm := range samples[g] {
+			if sm.obj < 0 {
+				ctx.Violate("a concurrent call panicked", "returns", sm.res, fmt.Sprintf("soak round, goroutine %d", sm.i))
+				return
+			}
+			if want := call(sm.obj, sm.i); want != sm.res {
+				ctx.Violate("a concurrent call returned something else than the same call run alone", want, sm.res,
+					fmt.Sprintf("soak round (%d distinct names through the long-lived shared objects), object %d, input %q", N, sm.obj, name(sm.i)))
+				return
+			}
+		}
+	}
+	c14CheckBaseline(ctx, "soak round")
 }
 
 type c14call struct {
@@ -283,6 +393,10 @@ func c14CheckBaseline(ctx *core.Ctx, where string) {
 func (m c14) Exec(ctx *core.Ctx, cs *core.Case) {
 	if cs.Check == "cold-round" {
 		m.coldRound(ctx, cs)
+		return
+	}
+	if cs.Check == "soak-round" {
+		m.soakRound(ctx, cs)
 		return
 	}
 	c14TakeBaseline()
